@@ -1415,7 +1415,8 @@ def gen_column_content(rng, ctx, n, for_compress_tol=None):
         else:
             x = gen_floats(rng, ctx, D, n=n, specials=True)
         if n > 0 and rng.random() < 0.3 and for_compress_tol is None:
-            factor = pick(rng, [1, 10, 1000])
+            # also factors that a 32 bit float cannot hold exactly (the file must carry them as doubles)
+            factor = pick(rng, [1, 10, 1000, 0.1, 0.01, 0.3, 7.3, 1e-3])
             x = fp_sanitize(x, factor, keep_over=False)
             specs = [("FixedPoint", {"factor": factor, "src_type": None})] + gen_int_chain(rng, int(pick(rng, [1, 2])), True)
     else:
@@ -1528,6 +1529,23 @@ def case_column(rng, ctx):
         judge_column(ctx, "column_roundtrip", cback, x, None, mask, "compress(%s, %r)" % (what, tol_arg), tol=tol if x.dtype.kind == "f" else None)
 
 
+def jsonable_enc(enc):
+    """Serialised encoding list with numpy arrays / scalars turned into plain Python (floats keep every digit)."""
+    def conv(v):
+        if isinstance(v, dict):
+            return {k: conv(x) for k, x in sorted(v.items())}
+        if isinstance(v, (list, tuple)):
+            return [conv(x) for x in v]
+        if isinstance(v, np.ndarray):
+            return [conv(x) for x in v.tolist()]
+        if isinstance(v, np.generic):
+            return v.item()
+        if isinstance(v, bytes):
+            return v.hex()
+        return v
+    return conv(enc)
+
+
 def case_file(rng, ctx):
     do_compress = rng.random() < 0.5
     tol_arg = pick(rng, _TOLS) if do_compress else None
@@ -1592,6 +1610,21 @@ def case_file(rng, ctx):
 
     g, raw = write_read(f, "file")
     compare(g, "file written and read", None)
+    # the encodings themselves (with their float parameters: factor, min, max) read back as written
+    ctx.oracle("file_encoding_parameters")
+    for bname, cats in model.items():
+        for cname, cols in cats.items():
+            for colname in cols:
+                for part in ("data", "mask"):
+                    dw, dr = getattr(f[bname][cname][colname], part), getattr(g[bname][cname][colname], part)
+                    if dw is None or dr is None:
+                        if (dw is None) != (dr is None):
+                            ctx.fail("file_encoding_parameters", "%s.%s.%s: %s present %s, read %s" % (bname, cname, colname, part, dw is not None, dr is not None))
+                        continue
+                    ew, er = dw.serialize()["encoding"], dr.serialize()["encoding"]
+                    if repr(jsonable_enc(ew)) != repr(jsonable_enc(er)):
+                        ctx.fail("file_encoding_parameters", "%s.%s.%s %s: encodings written %r, read %r"
+                                 % (bname, cname, colname, part, jsonable_enc(ew), jsonable_enc(er)))
     if not nan_inside and not lossy:
         ctx.oracle("file_roundtrip")
         if not (g == f and f == g):
